@@ -10,6 +10,7 @@ func TestSelfNative(t *testing.T) {
 	Self_slices_maps()
 	Self_strings()
 	Self_netip()
+	Self_netip2()
 	Self_repo()
 	Self_misc()
 }
